@@ -943,6 +943,13 @@ class Sim:
             if (len(vals) > nc or foreign or stray) and len(c.dst.conns) > 1:
                 return K_BCAST, 'process %s wrote %d result packet(s) with id %s on connection %d (%d of them not this call\'s result), which carried %d such call(s)%s' % (
                     c.dst.tag, len(vals), wire_id, c.conn.k, len(foreign), nc, '; and %d result(s) with ids never used on it' % len(stray) if stray else '')
+            # the same in the other direction: results among the sender's own packets that answer no call of this connection (such a
+            # packet can take the rest of its read - this call - with it)
+            got_ids = {J(o.get('id')) for _, _, o, _ in packets_of(back) if is_call(o)}
+            stray = [o for _, _, o, done in packets_of(tx) if done and is_value(o) and J(o.get('id')) not in got_ids]
+            if stray and len(c.src.conns) > 1:
+                return K_BCAST, 'process %s wrote %d result packet(s) on connection %d with ids (%s) that no call on it used' % (
+                    c.src.tag, len(stray), c.conn.k, ', '.join(J(o.get('id')) for o in stray[:3]))
             # a value packet with this id that arrived in the sender's process on another connection
             for other in c.src.conns:
                 if other is c.conn:
